@@ -1,19 +1,23 @@
 import Model.Queue
 import Model.QueueSpec
+import Model.Limiter
 /-!
 Line protocol of engine `queue`.
 
 `script <mode 0|1|0t|1t> <op> <op> …` — model-guided run (T-step). Mode: `1` = short flush interval,
 `t` = tiny `shutdown_timeout`. Ops:
   `new:<cap>` (must be first) | `append:<h>:<o|v|i>` | `clone:<h>` | `drop:<h>` | `gate:<k>` | `flush` |
-  `forget` | `dropjoin` | `dropjoinU` | `dropjoinT` | `dropU:<h>` | `fclose` | `fopen` (the flush gate: while shut every `stream.flush()` blocks)
+  `forget` | `dropjoin` | `dropjoinU` | `dropjoinT` | `dropU:<h>` | `fclose` | `fopen` | `fstep` (one `flush`
+  call may pass the shut flush gate) | `hclose` | `hopen` (the recorder gate: the writer's end-of-cycle histogram
+  callbacks block) | `sleep` (the harness lets three flush intervals pass: if the writer is held at a gate, the
+  deadline of its current outer-loop iteration has then certainly passed) (the flush gate: while shut every `stream.flush()` blocks)
 (`dropjoinU` / `dropjoinT` / `dropU` are drops performed while the dropping thread unwinds from a panic:
 in the model they are the same events as `dropjoin` / `drop`.)
 After every op the writer is run to quiescence (`settleG`: until it parks, is held inside `next` or
 `flush`, or has exited) under the clock on which no flush-interval deadline fires (the shutdown
 deadline fires iff `t`); with a short interval a parked writer additionally performs one timed-out
 lap of the outer loop. Reply: one observable per op joined by `;`:
-  `next=<ids> ent=<n> fl=<n> ov=<n> done=<ids> closed=<0|1> joined=<0|1> fblk=<0|1>`
+  `next=<ids> ent=<n> fl=<n> ov=<n> done=<ids> closed=<0|1> joined=<0|1> fblk=<0|1> hblk=<0|1> fst=<flush calls let through by fstep>`
 (`next` = push indices handed to the stream in order, `ent` = `next` calls entered, `fl` = `flush`
 calls returned (`*` when short), `done` = completed flush futures, sorted, `fblk` = writer held inside `flush`).
 If the run consults the clock where the real outcome is timing dependent (`clockDependent`) the reply
@@ -27,6 +31,9 @@ Both reply `accept` or `reject`.
 
 `subscribed <n before> <n after>` — validation failures before / after the environment installs a tracing
 subscriber (model event `setSubscriber`): reply `reports_before=… reports_after=… delivered=…`.
+
+`limiter <d ms>` — the number of evaluations `rate_limited!` (1 s) admits in any window of `d` milliseconds
+(`Limiter.windowBound`, theorem `c01_limiter_bound`): reply `bound=<n>`.
 
 `hww <cap> <op> …` — the waker state machine alone. Ops `s` (send a flush signal) |
 `h:<d|t>:<count>` (`handle_waiting_wakers` with Drained / HitDeadline). Reply per op:
@@ -45,7 +52,7 @@ def parseRes (s : String) : Option Res :=
 
 inductive Op where
   | new (cap : Nat) | append (h : Nat) (r : Res) | clone | drop | gate (k : Nat) | flush | forget | dropjoin
-  | fclose | fopen
+  | fclose | fopen | fstep | hclose | hopen | sleep
 
 def parseOp (s : String) : Option Op :=
   match s.splitOn ":" with
@@ -62,6 +69,10 @@ def parseOp (s : String) : Option Op :=
   | ["dropjoinT"] => some .dropjoin                    -- … owned by a thread that panics and is joined
   | ["fclose"] => some .fclose
   | ["fopen"] => some .fopen
+  | ["fstep"] => some .fstep
+  | ["hclose"] => some .hclose
+  | ["hopen"] => some .hopen
+  | ["sleep"] => some .sleep
   | _ => none
 
 def completedIds (log : List Obs) : List Nat :=
@@ -89,6 +100,15 @@ structure GState where
   permits : Nat
   fclosed : Bool
   dep : Bool
+  /-- `flush` calls that may pass the shut flush gate (`fstep`) -/
+  fpermits : Nat := 0
+  /-- `flush` calls that have passed the shut flush gate on an `fstep` permit -/
+  fstepped : Nat := 0
+  /-- the recorder gate is shut: the writer's end-of-cycle histogram callbacks block -/
+  hclosed : Bool := false
+  /-- short interval only: the harness let several flush intervals pass while the writer was held at a
+  gate, so the deadline of the writer's current outer-loop iteration has certainly passed -/
+  late : Bool := false
 
 /-- is the next writer step going to call `stream.flush()` (where the flush gate can hold it)? -/
 def atFlush (s : QState) : Bool :=
@@ -99,7 +119,16 @@ def atFlush (s : QState) : Bool :=
   | _ => false
 
 /-- is the writer currently blocked inside `flush`? -/
-def flushBlocked (g : GState) : Bool := g.fclosed && atFlush g.s
+def flushBlocked (g : GState) : Bool := g.fclosed && g.fpermits == 0 && atFlush g.s
+
+/-- the end-of-cycle recorder callbacks (`metrique_idle_percent`, `metrique_queue_len`) run after the
+stream flush of the outer loop and before the shutdown flag is looked at -/
+def atRecorder (s : QState) : Bool := s.wpc == .checkShutdown
+
+def recBlocked (g : GState) : Bool := g.hclosed && atRecorder g.s
+
+/-- held at one of the three gates -/
+def heldAtGate (g : GState) : Bool := (atNext g.s && g.permits == 0) || flushBlocked g || recBlocked g
 
 def observe (cfg : RunCfg) (g : GState) : String :=
   let s := g.s
@@ -108,31 +137,41 @@ def observe (cfg : RunCfg) (g : GState) : String :=
   let closed := if s.log.contains .closed then "1" else "0"
   let joined := if s.log.contains .joinReturned then "1" else "0"
   let fl := if cfg.short then "*" else toString (flushCount s.log)
-  s!"next={natList (d.map (·.2))} ent={ent} fl={fl} ov={s.overflow} done={natList (sortNat (completedIds s.log))} closed={closed} joined={joined} fblk={if flushBlocked g then 1 else 0}"
+  s!"next={natList (d.map (·.2))} ent={ent} fl={fl} ov={s.overflow} done={natList (sortNat (completedIds s.log))} closed={closed} joined={joined} fblk={if flushBlocked g then 1 else 0} hblk={if recBlocked g then 1 else 0} fst={g.fstepped}"
 
 def fuel : Nat := 100000
 
 /-- apply a list of events, all of which must be enabled -/
 def applyAll (s : QState) (evs : List Ev) : Option QState := run s evs
 
-/-- the clock of a guided run: no flush-interval deadline fires (`quietClock`); the shutdown deadline
-fires at every test iff the timeout is tiny -/
-def clockFor (cfg : RunCfg) (s : QState) : Clock :=
-  match s.wpc with
+/-- the clock of a guided run: no flush-interval deadline fires (`quietClock`) — unless the interval is
+short and the harness has let it pass while the writer was held (`late`): then every test of the current
+iteration's deadline says "passed"; the shutdown deadline fires at every test iff the timeout is tiny -/
+def clockFor (cfg : RunCfg) (g : GState) : Clock :=
+  match g.s.wpc with
   | .shutHolding _ _ => { quietClock false with deadlineHit := cfg.tiny }
-  | _ => quietClock false
+  | _ => if cfg.short && g.late then lateClock false else quietClock false
 
-/-- does this step consult the wall clock in a way the harness cannot control? (short interval:
-the deadline test of a main-loop drain at a multiple of 32 entries; and, with the flush gate shut, the
-`now >= next_flush` test while wakers wait, which decides which `flush` call blocks) -/
+/-- does this step consult the wall clock in a way the harness cannot control? (short interval, deadline
+not known to have passed: the deadline test of a main-loop drain at a multiple of 32 entries; and, with the
+flush or recorder gate shut, the `now >= next_flush` test while wakers wait, which decides at which
+call the writer is held) -/
 def clockDependent (cfg : RunCfg) (g : GState) : Bool :=
-  cfg.short && (match g.s.wpc with
+  cfg.short && !g.late && (match g.s.wpc with
     | .holding _ n => (n + 1) % 32 == 0
-    | .checkTime => g.fclosed && !g.s.waiting.isEmpty
+    | .checkTime => (g.fclosed || g.hclosed) && !g.s.waiting.isEmpty
     | _ => false)
 
+/-- one writer step of a guided run; a new outer-loop iteration computes a new deadline -/
+def gstep (cfg : RunCfg) (g : GState) : Option GState :=
+  match wstep g.s (clockFor cfg g) with
+  | none => none
+  | some s' =>
+    let newIteration := g.s.wpc == .checkHandles && s'.wpc == .drain 0
+    some { g with s := s', dep := g.dep || clockDependent cfg g, late := g.late && !newIteration }
+
 /-- run the writer until it blocks: in `park`, inside `next` without a permit, inside `flush` with the
-flush gate shut, or because it has exited -/
+flush gate shut, inside a recorder callback with the recorder gate shut, or because it has exited -/
 def settleG : Nat → RunCfg → GState → GState
   | 0, _, g => g
   | fuel + 1, cfg, g =>
@@ -140,13 +179,17 @@ def settleG : Nat → RunCfg → GState → GState
       match g.permits with
       | 0 => g
       | k + 1 =>
-        match wstep g.s (clockFor cfg g.s) with
+        match gstep cfg g with
         | none => g
-        | some s' => settleG fuel cfg { g with s := s', permits := k, dep := g.dep || clockDependent cfg g }
-    else if flushBlocked g then g
-    else match wstep g.s (clockFor cfg g.s) with
+        | some g' => settleG fuel cfg { g' with permits := k }
+    else if flushBlocked g || recBlocked g then g
+    else if g.fclosed && atFlush g.s then
+      match gstep cfg g with
       | none => g
-      | some s' => settleG fuel cfg { g with s := s', dep := g.dep || clockDependent cfg g }
+      | some g' => settleG fuel cfg { g' with fpermits := g.fpermits - 1, fstepped := g.fstepped + 1 }
+    else match gstep cfg g with
+      | none => g
+      | some g' => settleG fuel cfg g'
 
 /-- run the writer to quiescence (plus one timed-out lap of the outer loop in short mode) -/
 def quiesce (cfg : RunCfg) (g : GState) : GState :=
@@ -182,14 +225,18 @@ def execOp (cfg : RunCfg) (g : GState) : Op → Option GState
   | .dropjoin => do
     let s ← applyAll g.s [.dropJoinBegin, .dropJoinUnpark]
     some (quiesce cfg { g with s := s })
-  | .fclose => some (quiesce cfg { g with fclosed := true })
-  | .fopen => some (quiesce cfg { g with fclosed := false })
+  | .fclose => some (quiesce cfg { g with fclosed := true, fpermits := 0 })
+  | .fopen => some (quiesce cfg { g with fclosed := false, fpermits := 0 })
+  | .fstep => some (quiesce cfg { g with fpermits := g.fpermits + 1 })
+  | .hclose => some (quiesce cfg { g with hclosed := true })
+  | .hopen => some (quiesce cfg { g with hclosed := false })
+  | .sleep => some (quiesce cfg { g with late := g.late || heldAtGate g })
 
 def runScript (cfg : RunCfg) (ops : List Op) : Option (List String) :=
   match ops with
   | .new cap :: rest =>
     let results := rest.filterMap fun | .append _ r => some r | _ => none
-    let g0 := quiesce cfg ⟨init cap (resOf results) true, 0, false, false⟩
+    let g0 := quiesce cfg { s := init cap (resOf results) true, permits := 0, fclosed := false, dep := false }
     let rec go (g : GState) (ops : List Op) (acc : List String) : Option (List String) :=
       match ops with
       | [] => if g.dep then some ["clock-dependent"] else some acc.reverse
@@ -314,6 +361,10 @@ def handle (line : String) : String :=
     match nb.toNat?, na.toNat? with
     | some nb, some na => (runSubscribed nb na).getD "bad-op"
     | _, _ => "bad-op"
+  | ["limiter", d] =>
+    match d.toNat? with
+    | some d => s!"bound={Limiter.windowBound d}"
+    | none => "bad-op"
   | "order" :: rest => handleSpec ("order" :: rest)
   | "barrier" :: rest => handleSpec ("barrier" :: rest)
   | _ => "bad-op"
